@@ -334,7 +334,11 @@ func (g *G) retractTemplate(p *grl.Program, facts *grl.Facts) bool {
 
 // naturalAction returns an action that fails on most fact states (C14 natural action faults).
 func (g *G) naturalAction() *grl.Action {
-	switch g.R.Intn(6) {
+	switch g.R.Intn(8) {
+	case 6:
+		return &grl.Action{K: "assign", Path: grl.P("F.I"), Op: "=", E: &grl.Expr{K: "call", Path: grl.P("G"), Fn: "Boom", Args: []*grl.Expr{grl.LitInt(3)}}}
+	case 7:
+		return &grl.Action{K: "assign", Path: grl.P("F.I"), Op: "+=", E: &grl.Expr{K: "call", Path: grl.P("G"), Fn: "BoomErr", Args: []*grl.Expr{grl.LitInt(4)}}}
 	case 0:
 		return &grl.Action{K: "assign", Path: grl.P("F.A").Idx(grl.LitInt(g.R.PickInt64(3, 9))), Op: "=", E: grl.LitInt(1)}
 	case 1:
